@@ -234,6 +234,7 @@ def build_items(tier):
         for b in range(0xF0, 0x100):
             try:
                 pool.append("p" + bytes([0xFF, b]).decode(enc) + "q")
+                pool.append("d" + bytes([b, b]).decode(enc) + "e")        # the same letter twice (0xFF 0xFF is not an escape)
             except UnicodeDecodeError:
                 pass
         ok = []
